@@ -246,3 +246,59 @@ X_LOW_ORDER = [
     bytes.fromhex("5f9c95bca3508c24b1d0b1559c83ef5b04445cc4581c8e86d8224eddd09f1157"),
     bytes([0xec]) + b"\xff" * 30 + b"\x7f", bytes([0xed]) + b"\xff" * 30 + b"\x7f", bytes([0xee]) + b"\xff" * 30 + b"\x7f",
 ]
+
+
+def ed_decode(b):
+    """RFC 8032 decoding (lenient about small-order points), None if not on the curve"""
+    y = int.from_bytes(b, "little")
+    sign = y >> 255
+    y &= (1 << 255) - 1
+    x = _ed_recover_x(y % P25519, sign) if y < P25519 else None
+    if x is None:
+        return None
+    return (x, y, 1, x * y % P25519)
+
+
+def ed_neg(P):
+    return ((-P[0]) % P25519, P[1], P[2], (-P[3]) % P25519)
+
+
+def torsion_forgery(rng, pure=True, max_tries=400):
+    """a signature (R, S) with a small-order R that satisfies the verification equation under a mixed-order
+    public key A = a·B + T:  [S]B − [k]A = −k·T, choose the message so that −k·T = R.  Strict verification
+    (libsodium, RFC 8032 cofactorless with small-order checks) must reject it because R has small order."""
+    torsion = [ed_decode(t) for t in ED_SMALL_ORDER]
+    torsion = [t for t in torsion if t is not None and ed_compress(t) != ed_compress((0, 1, 1, 0))]
+    a = int.from_bytes(bytes(rng.getrandbits(8) for _ in range(32)), "little") % ED_L
+    T = rng.choice(torsion)
+    A = _ed_add(_ed_mul(a, ED_G), T)
+    Ab = ed_compress(A)
+    for _ in range(max_tries):
+        Rt = rng.choice(torsion)
+        Rb = ed_compress(Rt)
+        msg = bytes(rng.getrandbits(8) for _ in range(rng.randrange(1, 24)))
+        dom = b"" if pure else DOM2
+        m = msg if pure else sha512(msg)
+        k = int.from_bytes(sha512(dom + Rb + Ab + m), "little") % ED_L
+        if ed_compress(ed_neg(_ed_mul(k % 8, T))) == Rb:
+            S = k * a % ED_L
+            return Ab, msg, Rb + S.to_bytes(32, "little")
+    return None
+
+
+def poly_solve_last_block(r, prefix, T):
+    """a final block (1..16 bytes) such that Poly1305's accumulator over prefix‖block is T mod p; None if impossible for this r"""
+    if r == 0:
+        return None
+    h = poly1305_acc(r, prefix)
+    c = (T * pow(r, -1, P1305) - h) % P1305
+    bl = c.bit_length()
+    if bl < 9 or (bl - 1) % 8 != 0:
+        return None
+    L = (bl - 1) // 8
+    if not (1 <= L <= 16):
+        return None
+    return (c - (1 << (8 * L))).to_bytes(L, "little")
+
+
+POLY_TARGETS = [0, 1, 2, 3, 4, P1305 - 1, P1305 - 2, P1305 - 3, (1 << 128) - 1, (1 << 128), (1 << 129), 5, 6]
